@@ -13,7 +13,8 @@ RULE = ("corpus strings x random language subsets (1-5 of the first 80 languages
         "(or to DEFAULT_LANGUAGES when the selection fails), and DEFAULT_LANGUAGES must not change a result the selection "
         "produces; the same law for locales= selections (regional locales of distinct languages, both ordering rules); autodetected result re-parsed with languages=[reported]; complete walk of every valid (language, region) of "
         "language_locale_dict: languages=[L], region=R must equal locales=[L-R] on a numeric and a named date; mixed-validity "
-        "region lists (region valid for only some of the languages). non-trivial distinct = distinct (string, selection, "
+        "region lists (region valid for only some of the languages); every language with 2-4 regions that are not its own (incl. regions "
+        "of locales that only share its prefix): nothing may be reported. non-trivial distinct = distinct (string, selection, "
         "settings) whose result was non-None, plus every (language, region) pair.")
 ASSUMPTIONS = ["for the DEFAULT_LANGUAGES fallback only membership is asserted (the fallback skips the applicability test)"]
 TIMEOUT = {"quick": 900, "thorough": 3600}
@@ -296,6 +297,40 @@ def check_mixed(ctx, langs, region, s):
     ctx.count("mixed:ok")
 
 
+def check_invalid_pair(ctx, lang, region, s):
+    """languages=[L], region=R where L-R is not a locale: the selection is empty, so nothing may be reported (in particular
+    not a locale of another language that merely shares L's prefix, such as zh-Hans-HK for zh + HK)."""
+    from dateparser.date import DateDataParser
+
+    case = {"kind": "invalid-pair", "language": lang, "region": region, "string": s}
+    try:
+        m = DateDataParser(languages=[lang], region=region, settings={"RELATIVE_BASE": B}).get_date_data(s)
+    except Exception as e:
+        ctx.violation(case, e, "a DateData", "selection-raised", {"kind": "invalid-pair"})
+        return
+    ctx.ran()
+    if m["date_obj"] is not None or m["locale"] is not None:
+        ctx.violation(case, (m["date_obj"], m["period"], m["locale"]), (None, "day", None), "locale-outside-selection",
+                      {"kind": "invalid-pair"})
+        return
+    ctx.nontrivial("invalid-pair", lang, region, s)
+    ctx.count("invalid_pair:none")
+
+
+def own_named_date(lang):
+    from ..oracles import vocab
+
+    try:
+        info = vocab.locale_info(lang, lang)
+        for k in vocab.MONTHS[4:6] + vocab.MONTHS[:1]:
+            for w in (info.get(k) or [])[:1]:
+                if isinstance(w, str):
+                    return "13 %s 2015" % w
+    except Exception:
+        pass
+    return None
+
+
 def run_regions(ctx, desc):
     from dateparser.data.languages_info import language_locale_dict, language_order
 
@@ -304,6 +339,20 @@ def run_regions(ctx, desc):
         for s in ("02/03/2015", "12 2015", "10:45"):
             check_region(ctx, lang, loc, s)
     ctx.count("region_pairs_walked", len(pairs))
+    # invalid (language, region) pairs: regions of locales that only share the language's prefix, and two regions that
+    # exist for other languages
+    all_locs = [loc for L in language_order for loc in language_locale_dict[L]]
+    other_regions = sorted({loc.rsplit("-", 1)[1] for loc in all_locs})
+    rnd = rng(ctx.seed, "C13inv", desc["i"])
+    for lang in list(language_order)[desc["i"]::desc["k"]]:
+        valid = {loc[len(lang) + 1:] for loc in language_locale_dict[lang]}
+        sib = sorted({loc.rsplit("-", 1)[1] for loc in all_locs if loc.startswith(lang + "-") and loc not in language_locale_dict[lang]})
+        regions = [r for r in sib + rnd.sample(other_regions, 2) if r not in valid][:4]
+        named = own_named_date(lang)
+        for region in regions:
+            for s in ["02/03/2015"] + ([named] if named else []):
+                check_invalid_pair(ctx, lang, region, s)
+    ctx.count("invalid_pair_languages", len(list(language_order)[desc["i"]::desc["k"]]))
     if desc["i"] == 0:
         for langs, region in ([["en", "fr"], "CA"], [["en", "fr"], "US"], [["fr", "en"], "BE"], [["de", "en", "fr"], "CH"],
                               [["en", "es"], "MX"], [["pt", "en"], "BR"], [["en", "fr"], "XX"], [["es", "en"], "IN"],
@@ -367,5 +416,7 @@ def replay_case(ctx, v):
         check_autodetect(ctx, c["string"])
     elif c["kind"] == "region":
         check_region(ctx, c["language"], c["locale"], c["string"])
+    elif c["kind"] == "invalid-pair":
+        check_invalid_pair(ctx, c["language"], c["region"], c["string"])
     else:
         check_mixed(ctx, c["languages"], c["region"], c["string"])
